@@ -1,24 +1,33 @@
-(* C19 - the proved statements; each is closed by [exact] on a lemma of Proofs_*.v and
-   followed by Print Assumptions.  Statements mention Model.v / Spec.v / Lib.v only. *)
+(* C19 - the proved statements; each is closed by [exact] on lemmas of Proofs_*.v (small lemmas are grouped
+   into conjunctions) and followed by Print Assumptions.  Statements mention Model.v / Spec.v / Lib.v only.
+   This file and everything it imports is free of axioms; the real-number statement lives in PropR.v. *)
 From Coq Require Import String List Bool Arith ZArith QArith Qcanon.
 From AL Require Import Base.CaseLib C19.Lib C19.Model C19.Spec C19.Check C19.Proofs_MC C19.Proofs_Env
-  C19.Proofs_RS C19.Proofs_Tab C19.Proofs_KS.
+  C19.Proofs_RS C19.Proofs_Tab C19.Proofs_KS C19.Proofs_Glue.
 Import ListNotations.
 Open Scope list_scope.
 Open Scope Qc_scope.
 
 (* ===================================================================== modulo_counter *)
-(* Python's % on exact rationals: the result lies in [0, m) for m > 0 and adding any integer multiple
-   of m does not change it (what "no drift in exact arithmetic" rests on). *)
-Theorem C19_qmod_range : forall x m, 0 < m -> 0 <= qmod x m /\ qmod x m < m.
-Proof. exact qmod_range_pos. Qed.
-Print Assumptions C19_qmod_range.
-Theorem C19_qmod_add_mult : forall x m k, m <> 0 -> qmod (x + zq k * m) m = qmod x m.
-Proof. exact qmod_add_mult. Qed.
-Print Assumptions C19_qmod_add_mult.
+(* Python's % on exact rationals: result in [0, m) for m > 0; adding an integer multiple of m changes nothing *)
+Theorem C19_qmod :
+  (forall x m, 0 < m -> 0 <= qmod x m /\ qmod x m < m) /\
+  (forall x m k, m <> 0 -> qmod (x + zq k * m) m = qmod x m).
+Proof. exact (conj qmod_range_pos qmod_add_mult). Qed.
+Print Assumptions C19_qmod.
 
-(* mc_general: with three iterables the counter yields the general recurrence
-   c_0 = p_0 mod m_0, c_n = (c_{n-1} + s_{n-1} + p_n - p_{n-1}) mod m_n, for as long as all inputs last. *)
+(* THE modulo_counter theorem: for every one of the eight numbers-vs-streams call kinds, every exact start /
+   modulo / step (negative and zero steps, steps that are multiples of the modulo, negative and zero moduli,
+   varying streams of unequal length) and every number k of pulls, whichever internal branch or batched fast
+   path runs, the outputs and the way the stream ends are those of mc_spec: output n is
+   (p_n + sum_{j<n} s_j) mod m for a number modulo (general recurrence for a modulo stream), the stream ends
+   with its shortest iterable, a zero modulo raises ZeroDivisionError when it is reached. *)
+Theorem C19_modulo_counter_is_spec : forall start modulo step k,
+  modulo_counter start modulo step k = mc_spec start modulo step k.
+Proof. exact modulo_counter_is_spec. Qed.
+Print Assumptions C19_modulo_counter_is_spec.
+
+(* mc_general: three iterables give c_0 = p_0 mod m_0, c_n = (c_{n-1} + s_{n-1} + p_n - p_{n-1}) mod m_n *)
 Theorem C19_mc_general : forall ps ms ss,
   Forall (fun m => m <> 0) ms ->
   mc_sss 0 0 ps ms ss
@@ -26,59 +35,37 @@ Theorem C19_mc_general : forall ps ms ss,
 Proof. exact mc_general. Qed.
 Print Assumptions C19_mc_general.
 
-(* mc_closed_form: for a constant modulo the recurrence is the running sum of start and all
-   earlier steps, reduced into [0, modulo). *)
-Theorem C19_mc_closed_form : forall p s m n,
-  m <> 0 -> mc_rec p (fun _ => m) s n = qmod (p n + sumq s n) m.
-Proof. exact mc_closed_form. Qed.
+(* mc_closed_form: constant modulo: running sum of start and all earlier steps, reduced into [0, modulo) *)
+Theorem C19_mc_closed_form :
+  (forall p s m n, m <> 0 -> mc_rec p (fun _ => m) s n = qmod (p n + sumq s n) m) /\
+  (forall p s m n, 0 < m -> 0 <= mc_closed p s m n /\ mc_closed p s m n < m).
+Proof. exact (conj mc_closed_form mc_closed_range). Qed.
 Print Assumptions C19_mc_closed_form.
-Theorem C19_mc_closed_range : forall p s m n,
-  0 < m -> 0 <= mc_closed p s m n /\ mc_closed p s m n < m.
-Proof. exact mc_closed_range. Qed.
-Print Assumptions C19_mc_closed_range.
 
-(* mc_branches_agree: each of the other seven argument-kind branches is the all-iterables branch
-   run on constant sequences in place of its numbers - for arbitrary streams in the remaining
-   positions, for every exact start / modulo / step (negative, zero, multiples of the modulo, zero
-   modulo included: both sides then raise at the same output). *)
-Theorem C19_mc_sns_agrees : forall ps c l m ss,
-  mc_sns c l ps m ss = mc_sss c l ps (repeat m (length ps)) ss.
-Proof. exact mc_sns_sss. Qed.
-Print Assumptions C19_mc_sns_agrees.
-Theorem C19_mc_ssn_agrees : forall ps c l ms s,
-  mc_ssn c l ps ms s = mc_sss c l ps ms (repeat s (length ps)).
-Proof. exact mc_ssn_sss. Qed.
-Print Assumptions C19_mc_ssn_agrees.
-(* only start iterable: the step == 0 branch, the batched fast path (steps = int(modulo/step) > 1,
-   counter n, re-basing of c) and the plain loop all give the same stream *)
-Theorem C19_mc_snn_agrees : forall ps m s,
-  mc_snn ps m s = mc_sss 0 0 ps (repeat m (length ps)) (repeat s (length ps)).
-Proof. exact mc_snn_sss. Qed.
-Print Assumptions C19_mc_snn_agrees.
-Theorem C19_mc_nss_agrees : forall ms p ss,
-  mc_nss p ms ss = mc_sss 0 0 (repeat p (length ms)) ms ss.
-Proof. intros. apply mc_nss_sss. ring. Qed.
-Print Assumptions C19_mc_nss_agrees.
-Theorem C19_mc_nns_agrees : forall ss c m, mc_nns c m ss = mc_nss c (repeat m (length ss)) ss.
-Proof. exact mc_nns_nss. Qed.
-Print Assumptions C19_mc_nns_agrees.
-Theorem C19_mc_nsn_agrees : forall ms c s, mc_nsn c ms s = mc_nss c ms (repeat s (length ms)).
-Proof. exact mc_nsn_nss. Qed.
-Print Assumptions C19_mc_nsn_agrees.
-(* nothing iterable (k outputs pulled): step == 0 branch, batched fast path and plain loop *)
-Theorem C19_mc_nnn_agrees : forall p m s k,
-  mc_nnn p m s k = take_res k (mc_sss 0 0 (repeat p k) (repeat m k) (repeat s k)).
-Proof. exact mc_nnn_sss. Qed.
-Print Assumptions C19_mc_nnn_agrees.
+(* mc_branches_agree: each of the other seven branches (with their step == 0 sub-branch, batched fast path and
+   plain loop) is the all-iterables branch run on constant sequences in place of its numbers *)
+Theorem C19_mc_branches_agree :
+  (forall ps c l m ss, mc_sns c l ps m ss = mc_sss c l ps (repeat m (length ps)) ss) /\
+  (forall ps c l ms s, mc_ssn c l ps ms s = mc_sss c l ps ms (repeat s (length ps))) /\
+  (forall ps m s, mc_snn ps m s = mc_sss 0 0 ps (repeat m (length ps)) (repeat s (length ps))) /\
+  (forall ms c c' l p ss, c = c' + (p - l) -> mc_nss c ms ss = mc_sss c' l (repeat p (length ms)) ms ss) /\
+  (forall ss c m, mc_nns c m ss = mc_nss c (repeat m (length ss)) ss) /\
+  (forall ms c s, mc_nsn c ms s = mc_nss c ms (repeat s (length ms))) /\
+  (forall p m s k, mc_nnn p m s k = take_res k (mc_sss 0 0 (repeat p k) (repeat m k) (repeat s k))).
+Proof.
+  exact (conj mc_sns_sss (conj mc_ssn_sss (conj mc_snn_sss (conj mc_nss_sss (conj mc_nns_nss
+        (conj mc_nsn_nss mc_nnn_sss)))))).
+Qed.
+Print Assumptions C19_mc_branches_agree.
+
 (* the fast paths in isolation, for ANY batch size and any congruent state *)
-Theorem C19_mc_fast_path_stream : forall ps steps c c' l n m s,
-  qcong m (c + zq n * s) c' -> mc_snn_fast steps c l n ps m s = mc_snn_slow c' l ps m s.
-Proof. exact mc_snn_fast_slow. Qed.
-Print Assumptions C19_mc_fast_path_stream.
-Theorem C19_mc_fast_path_numbers : forall k steps c c' n m s,
-  qcong m (c + zq n * s) c' -> mc_nnn_fast steps c n m s k = mc_nnn_slow c' m s k.
-Proof. exact mc_nnn_fast_slow. Qed.
-Print Assumptions C19_mc_fast_path_numbers.
+Theorem C19_mc_fast_paths :
+  (forall ps steps c c' l n m s,
+     qcong m (c + zq n * s) c' -> mc_snn_fast steps c l n ps m s = mc_snn_slow c' l ps m s) /\
+  (forall k steps c c' n m s,
+     qcong m (c + zq n * s) c' -> mc_nnn_fast steps c n m s k = mc_nnn_slow c' m s k).
+Proof. exact (conj mc_snn_fast_slow mc_nnn_fast_slow). Qed.
+Print Assumptions C19_mc_fast_paths.
 
 (* constant start / modulo / step: output n is (start + n*step) mod modulo - no drift *)
 Theorem C19_mc_const_closed : forall p m s k,
@@ -87,13 +74,10 @@ Theorem C19_mc_const_closed : forall p m s k,
 Proof. exact mc_const_closed. Qed.
 Print Assumptions C19_mc_const_closed.
 
-(* the all-numbers call against the specification used by the check (mc_spec): for EVERY start, modulo, step
-   and number of pulls - zero modulo (ZeroDivisionError on the first pull), negative modulo, step 0, negative
-   steps and multiples of the modulo included - output n is (start + n*step) mod modulo *)
-Theorem C19_mc_numbers_spec : forall p m s k,
-  modulo_counter (Num p) (Num m) (Num s) k = mc_spec (Num p) (Num m) (Num s) k.
-Proof. exact mc_numbers_spec. Qed.
-Print Assumptions C19_mc_numbers_spec.
+Theorem C19_modulo_counter_range : forall start m step k,
+  0 < m -> Forall (fun v => 0 <= v /\ v < m) (fst (modulo_counter start (Num m) step k)).
+Proof. exact modulo_counter_range. Qed.
+Print Assumptions C19_modulo_counter_range.
 
 (* non-vacuity: negative step, batched path (steps = 5) re-basing twice; a step that is a multiple of the modulo *)
 Example C19_mc_example :
@@ -108,172 +92,172 @@ Print Assumptions C19_mc_example.
 
 (* ===================================================================== line, fades, ones, zeros, impulse, adsr, attack, noise *)
 (* int(dur + .5) is dur rounded to the nearest integer (halves up); durations below 1/2 give no sample *)
-Theorem C19_nearest_len_round : forall d, 0 <= d + half ->
-  d - half < nq (nearest_len d) /\ nq (nearest_len d) <= d + half.
-Proof. exact nearest_len_round. Qed.
-Print Assumptions C19_nearest_len_round.
-Theorem C19_nearest_len_small : forall d, d < half -> nearest_len d = O.
-Proof. exact nearest_len_small. Qed.
-Print Assumptions C19_nearest_len_small.
+Theorem C19_nearest_len :
+  (forall d, 0 <= d + half -> d - half < nq (nearest_len d) /\ nq (nearest_len d) <= d + half) /\
+  (forall d, d < half -> nearest_len d = O).
+Proof. exact (conj nearest_len_round nearest_len_small). Qed.
+Print Assumptions C19_nearest_len.
 
-(* line_spec *)
-Theorem C19_line_spec : forall d b e (fin : bool),
-  d - (if fin then 1 else 0) <> 0 -> line (DFin d) b e fin = (line_spec d b e fin, EStop).
-Proof. exact line_is_spec. Qed.
+(* line_spec: int(dur+.5) samples begin + i*(end-begin)/(dur-finish) *)
+Theorem C19_line_spec :
+  (forall d b e (fin : bool),
+     d - (if fin then 1 else 0) <> 0 -> line (DFin d) b e fin = (line_spec d b e fin, EStop)) /\
+  (forall d b e (fin : bool), length (line_spec d b e fin) = nearest_len d) /\
+  (forall d b e (fin : bool) i, (i < nearest_len d)%nat ->
+     nth i (line_spec d b e fin) 0 = b + nq i * ((e - b) / (d - (if fin then 1 else 0)))).
+Proof. exact (conj line_is_spec (conj line_length line_nth)). Qed.
 Print Assumptions C19_line_spec.
-Theorem C19_line_length : forall d b e (fin : bool), length (line_spec d b e fin) = nearest_len d.
-Proof. exact line_length. Qed.
-Print Assumptions C19_line_length.
-Theorem C19_line_nth : forall d b e (fin : bool) i, (i < nearest_len d)%nat ->
-  nth i (line_spec d b e fin) 0 = b + nq i * ((e - b) / (d - (if fin then 1 else 0))).
-Proof. exact line_nth. Qed.
-Print Assumptions C19_line_nth.
-(* known finding C19-line-zero-division: dur - finish = 0 raises although int(dur+.5) samples are specified *)
+
+(* known finding C19-line-zero-division: dur - finish = 0, or a zero-length a / d / r segment, raises
+   although int(dur+.5) samples (resp. an envelope with an empty segment) are specified *)
 Theorem C19_line_zero_dur_refuted : exists d b e fin,
   nearest_len d = O /\ line (DFin d) b e fin <> (line_spec d b e fin, EStop).
-Proof. exists 0, 0, 1, false. split; [reflexivity|]. rewrite line_zero_division by reflexivity. discriminate. Qed.
+Proof. exact line_zero_dur_refuted. Qed.
 Print Assumptions C19_line_zero_dur_refuted.
-Theorem C19_line_zero_division : forall d b e (fin : bool),
-  d - (if fin then 1 else 0) = 0 -> line (DFin d) b e fin = ([], ERaise "ZeroDivisionError").
-Proof. exact line_zero_division. Qed.
-Print Assumptions C19_line_zero_division.
-Theorem C19_fade_spec : forall d, fadein d = line d 0 1 false /\ fadeout d = line d 1 0 false.
-Proof. intro d. split; reflexivity. Qed.
-Print Assumptions C19_fade_spec.
+Theorem C19_zero_division_raises :
+  (forall d b e (fin : bool),
+     d - (if fin then 1 else 0) = 0 -> line (DFin d) b e fin = ([], ERaise "ZeroDivisionError")) /\
+  (forall dq a d s r, a = 0 \/ d = 0 \/ r = 0 -> adsr dq a d s r = ([], ERaise "ZeroDivisionError")).
+Proof. exact (conj line_zero_division adsr_zero_segment). Qed.
+Print Assumptions C19_zero_division_raises.
 
-(* ones_zeros_spec *)
-Theorem C19_ones_zeros_spec : forall v d k,
-  const_gen v (DFin d) k = take_res k (repeat v (nearest_len d), EStop)
-  /\ const_gen v DPInf k = (repeat v k, EMore) /\ const_gen v DNone k = (repeat v k, EMore).
-Proof. intros. split; [apply const_gen_finite|apply const_gen_endless]. Qed.
-Print Assumptions C19_ones_zeros_spec.
+(* fades are lines; ones / zeros have int(dur+.5) samples (endless for inf / None) *)
+Theorem C19_fade_ones_zeros_spec :
+  (forall d, fadein d = line d 0 1 false /\ fadeout d = line d 1 0 false) /\
+  (forall v d k, const_gen v (DFin d) k = take_res k (repeat v (nearest_len d), EStop)) /\
+  (forall v k, const_gen v DPInf k = (repeat v k, EMore) /\ const_gen v DNone k = (repeat v k, EMore)).
+Proof. exact (conj (fun d => conj (fadein_is_line d) (fadeout_is_line d)) (conj const_gen_finite const_gen_endless)). Qed.
+Print Assumptions C19_fade_ones_zeros_spec.
 
-(* impulse_spec: one "one" followed by zeros, int(dur + .5) samples in all *)
-Theorem C19_impulse_spec : forall d one zero k,
-  impulse (DFin d) one zero k
-  = take_res k (match nearest_len d with O => [] | S n => one :: repeat zero n end, EStop).
-Proof. exact impulse_spec. Qed.
+(* impulse_spec: one "one" followed by zeros, int(dur + .5) samples in all (1 + int(dur-.5) = int(dur+.5)) *)
+Theorem C19_impulse_spec :
+  (forall d one zero k, impulse (DFin d) one zero k
+     = take_res k (match nearest_len d with O => [] | S n => one :: repeat zero n end, EStop)) /\
+  (forall d, half <= d -> nearest_len d = S (range_len (d - half))) /\
+  (forall one zero k, impulse DPInf one zero k = (firstn k (one :: repeat zero k), EMore)
+                      /\ impulse DNone one zero k = (firstn k (one :: repeat zero k), EMore)).
+Proof. exact (conj impulse_spec (conj impulse_length_identity impulse_endless)). Qed.
 Print Assumptions C19_impulse_spec.
-Theorem C19_impulse_endless : forall one zero k,
-  impulse DPInf one zero k = (firstn k (one :: repeat zero k), EMore)
-  /\ impulse DNone one zero k = (firstn k (one :: repeat zero k), EMore).
-Proof. exact impulse_endless. Qed.
-Print Assumptions C19_impulse_endless.
 
 (* adsr_spec: piecewise-linear envelope; documented duration when the segments fit *)
-Theorem C19_adsr_spec : forall dq a d s r,
-  0 < a -> 0 < d -> 0 < r -> adsr dq a d s r = (adsr_spec dq a d s r, EStop).
-Proof. exact adsr_is_spec. Qed.
+Theorem C19_adsr_spec :
+  (forall dq a d s r, 0 < a -> 0 < d -> 0 < r -> adsr dq a d s r = (adsr_spec dq a d s r, EStop)) /\
+  (forall dq a d s r, (nearest_len a + nearest_len d + nearest_len r <= nearest_len dq)%nat ->
+     length (adsr_spec dq a d s r) = nearest_len dq).
+Proof. exact (conj adsr_is_spec adsr_length). Qed.
 Print Assumptions C19_adsr_spec.
-Theorem C19_adsr_length : forall dq a d s r,
-  (nearest_len a + nearest_len d + nearest_len r <= nearest_len dq)%nat ->
-  length (adsr_spec dq a d s r) = nearest_len dq.
-Proof. exact adsr_length. Qed.
-Print Assumptions C19_adsr_length.
-Theorem C19_adsr_zero_segment_raises : forall dq a d s r,
-  a = 0 \/ d = 0 \/ r = 0 -> adsr dq a d s r = ([], ERaise "ZeroDivisionError").
-Proof. exact adsr_zero_segment. Qed.
-Print Assumptions C19_adsr_zero_segment_raises.
 Example C19_adsr_example :
   res_eqb (adsr (qc 10 1) (qc 2 1) (qc 5 2) (qc 1 2) (qc 3 1))
           ([0; qc 1 2; 1; qc 4 5; qc 3 5; qc 1 2; qc 1 2; qc 1 2; qc 1 3; qc 1 6], EStop) = true.
 Proof. vm_compute. reflexivity. Qed.
 Print Assumptions C19_adsr_example.
 
-(* attack_spec (number sustain): attack and decay segments, then the sustain level for ever *)
-Theorem C19_attack_spec : forall a d s0 k i,
-  a <> 0 -> d <> 0 -> (i < k)%nat ->
-  snd (attack a d (Num s0) k) = EMore /\ length (fst (attack a d (Num s0) k)) = k /\
-  nth i (fst (attack a d (Num s0) k)) 0 = attack_sample a d s0 (nearest_len a) (nearest_len d) (fun _ => s0) i.
-Proof. exact attack_is_spec. Qed.
+(* attack_spec: attack and decay segments, then the sustain: a number for ever, or the items of an iterable
+   (its first item is the decay target; an empty one raises RuntimeError) *)
+Theorem C19_attack_spec :
+  (forall a d s0 k i, a <> 0 -> d <> 0 -> (i < k)%nat ->
+     snd (attack a d (Num s0) k) = EMore /\ length (fst (attack a d (Num s0) k)) = k /\
+     nth i (fst (attack a d (Num s0) k)) 0 = attack_sample a d s0 (nearest_len a) (nearest_len d) (fun _ => s0) i) /\
+  (forall a d s0 rest k, a <> 0 -> d <> 0 ->
+     attack a d (Str (s0 :: rest)) (S k)
+     = take_res (S k) (map (attack_sample a d s0 (nearest_len a) (nearest_len d) (fun i => nth i rest 0))
+                           (seq 0 (nearest_len a + nearest_len d + length rest)), EStop)) /\
+  (forall a d k, attack a d (Str []) (S k) = ([], ERaise "RuntimeError")).
+Proof. exact (conj attack_is_spec (conj attack_stream_spec attack_empty_sustain)). Qed.
 Print Assumptions C19_attack_spec.
 
 (* noise: rint(dur) samples (nearest integer), each taken from the random source; uniform noise stays in range *)
-Theorem C19_noise_length : forall o d lo hi k,
-  length (fst (noise o (DFin d) lo hi k)) = Nat.min k (Z.to_nat (rint d)).
-Proof. exact noise_length. Qed.
-Print Assumptions C19_noise_length.
-Theorem C19_rint_nearest : forall x, x - half <= zq (rint x) /\ zq (rint x) <= x + half.
-Proof. exact rint_nearest. Qed.
-Print Assumptions C19_rint_nearest.
-Theorem C19_white_noise_range : forall o d lo hi k,
-  (forall i, lo <= o lo hi i /\ o lo hi i <= hi) ->
-  Forall (fun v => lo <= v /\ v <= hi) (fst (noise o d lo hi k)).
-Proof. exact white_noise_range. Qed.
-Print Assumptions C19_white_noise_range.
+Theorem C19_noise_spec :
+  (forall o d lo hi k, length (fst (noise o (DFin d) lo hi k)) = Nat.min k (Z.to_nat (rint d))) /\
+  (forall x, x - half <= zq (rint x) /\ zq (rint x) <= x + half) /\
+  (forall o d lo hi k, (forall i, lo <= o lo hi i /\ o lo hi i <= hi) ->
+     Forall (fun v => lo <= v /\ v <= hi) (fst (noise o d lo hi k))).
+Proof. exact (conj noise_length (conj rint_nearest white_noise_range)). Qed.
+Print Assumptions C19_noise_spec.
 
 (* ===================================================================== TableLookup *)
-(* table_lookup_is_cyclic_lerp: every sample of table(freq, phase) - numbers or streams - is the cyclic
-   linear interpolation of the table at the position yielded by the phase counter
-   modulo_counter(len/(cycles*2*pi)*phase, len, len/(cycles*2*pi)*freq), which the modulo_counter theorems
-   above put in closed form; the counter stays in [0, len). *)
-Theorem C19_table_lookup_is_cyclic_lerp : forall tbl cycles freq phase k,
-  tbl <> [] -> cycles * (1 + 1) * pi_fl <> 0 ->
-  let len := nq (length tbl) in
-  let cl := len / (cycles * (1 + 1) * pi_fl) in
-  let pos := modulo_counter (scale_arg cl phase) (Num len) (scale_arg cl freq) k in
-  table_call tbl cycles freq phase k = (map (cyc_lerp tbl) (fst pos), snd pos).
+(* table_lookup_is_cyclic_lerp: every sample of table(freq, phase) - numbers or streams - is the cyclic linear
+   interpolation of the table at the position yielded by modulo_counter(cl*phase, len, cl*freq), which
+   C19_modulo_counter_is_spec puts in closed form.  [cl] is the cycle length constant len/(cycles*2*pi) as the
+   implementation computed it (exact for rational cycles, the rounded float for int / float cycles). *)
+Theorem C19_table_lookup_is_cyclic_lerp : forall tbl cl freq phase k,
+  tbl <> [] ->
+  let pos := modulo_counter (scale_arg cl phase) (Num (nq (length tbl))) (scale_arg cl freq) k in
+  table_call_cl tbl cl freq phase k = (map (cyc_lerp tbl) (fst pos), snd pos).
 Proof. exact table_lookup_is_cyclic_lerp. Qed.
 Print Assumptions C19_table_lookup_is_cyclic_lerp.
-Theorem C19_modulo_counter_range : forall start m step k,
-  0 < m -> Forall (fun v => 0 <= v /\ v < m) (fst (modulo_counter start (Num m) step k)).
-Proof. exact modulo_counter_range. Qed.
-Print Assumptions C19_modulo_counter_range.
-Theorem C19_getitem_is_cyclic_lerp : forall tbl idx,
-  tbl <> [] -> 0 <= idx -> table_getitem tbl idx = Some (cyc_lerp tbl idx).
-Proof. exact getitem_is_cyclic_lerp. Qed.
+Theorem C19_table_call_exact_cycles : forall tbl cycles freq phase k,
+  cycles * (1 + 1) * pi_fl <> 0 ->
+  table_call tbl cycles freq phase k
+  = table_call_cl tbl (nq (length tbl) / (cycles * (1 + 1) * pi_fl)) freq phase k.
+Proof. exact table_call_exact_cycles. Qed.
+Print Assumptions C19_table_call_exact_cycles.
+
+(* getitem_is_cyclic_lerp for idx >= 0; outside the property text: for a negative index __getitem__ does not
+   interpolate (int() truncates towards zero, so both taps are table[ceil(idx)]) *)
+Theorem C19_getitem_is_cyclic_lerp :
+  (forall tbl idx, tbl <> [] -> 0 <= idx -> table_getitem tbl idx = Some (cyc_lerp tbl idx)) /\
+  (forall tbl idx, tbl <> [] -> idx < 0 -> table_getitem tbl idx = Some (cyc_get tbl (qceil idx))).
+Proof. exact (conj getitem_is_cyclic_lerp getitem_negative_degenerate). Qed.
 Print Assumptions C19_getitem_is_cyclic_lerp.
-(* outside the property text: for a negative index __getitem__ does not interpolate (int() truncates
-   towards zero, so both taps are table[ceil(idx)]) *)
-Theorem C19_getitem_negative_degenerate : forall tbl idx,
-  tbl <> [] -> idx < 0 -> table_getitem tbl idx = Some (cyc_get tbl (qceil idx)).
-Proof. exact getitem_negative_degenerate. Qed.
-Print Assumptions C19_getitem_negative_degenerate.
-Theorem C19_table_ops_pointwise : forall o t1 c1 t2 c2 r cr,
-  table_binop_tt o t1 c1 t2 c2 = TOk r cr ->
-  c1 = c2 /\ cr = c1 /\ length t1 = length t2 /\ length r = length t1 /\
-  forall i, (i < length t1)%nat -> apply_binop o (nth i t1 0) (nth i t2 0) = Some (nth i r 0).
-Proof. exact table_ops_pointwise. Qed.
+
+(* table_ops_pointwise: table-table, table-scalar and scalar-table operators; mismatching tables are rejected *)
+Theorem C19_table_ops_pointwise :
+  (forall o t1 c1 t2 c2 r cr, table_binop_tt o t1 c1 t2 c2 = TOk r cr ->
+     c1 = c2 /\ cr = c1 /\ length t1 = length t2 /\ length r = length t1 /\
+     forall i, (i < length t1)%nat -> apply_binop o (nth i t1 0) (nth i t2 0) = Some (nth i r 0)) /\
+  (forall o t1 c1 x,
+     (forall r cr, table_binop_ts o t1 c1 x = TOk r cr ->
+        cr = c1 /\ length r = length t1 /\
+        forall i, (i < length t1)%nat -> apply_binop o (nth i t1 0) x = Some (nth i r 0)) /\
+     (forall r cr, table_binop_st o x t1 c1 = TOk r cr ->
+        cr = c1 /\ length r = length t1 /\
+        forall i, (i < length t1)%nat -> apply_binop o x (nth i t1 0) = Some (nth i r 0))) /\
+  (forall o t1 c1 t2 c2,
+     c1 <> c2 \/ length t1 <> length t2 -> table_binop_tt o t1 c1 t2 c2 = TRaise "ValueError").
+Proof. exact (conj table_ops_pointwise (conj table_scalar_ops_pointwise table_ops_mismatch)). Qed.
 Print Assumptions C19_table_ops_pointwise.
-Theorem C19_table_scalar_ops_pointwise : forall o t1 c1 x,
-  (forall r cr, table_binop_ts o t1 c1 x = TOk r cr ->
-     cr = c1 /\ length r = length t1 /\
-     forall i, (i < length t1)%nat -> apply_binop o (nth i t1 0) x = Some (nth i r 0)) /\
-  (forall r cr, table_binop_st o x t1 c1 = TOk r cr ->
-     cr = c1 /\ length r = length t1 /\
-     forall i, (i < length t1)%nat -> apply_binop o x (nth i t1 0) = Some (nth i r 0)).
-Proof. exact table_scalar_ops_pointwise. Qed.
-Print Assumptions C19_table_scalar_ops_pointwise.
-Theorem C19_table_ops_mismatch : forall o t1 c1 t2 c2,
-  c1 <> c2 \/ length t1 <> length t2 -> table_binop_tt o t1 c1 t2 c2 = TRaise "ValueError".
-Proof. exact table_ops_mismatch. Qed.
-Print Assumptions C19_table_ops_mismatch.
-(* normalize_spec_partial: the result is the table divided by an entry of maximal absolute value (so
-   all values lie in [-1, 1] and one of them is +-1); missing: the |x / mx| <= 1 step is not spelled out.
-   harmonize has no theorem (checked by correspondence and by holds_table against harm_sample only). *)
-Theorem C19_normalize_spec_partial : forall t1 c1 r cr,
-  table_normalize t1 c1 = TOk r cr ->
-  exists mx, In mx t1 /\ mx <> 0 /\ (forall x, In x t1 -> Qc_abs x <= Qc_abs mx) /\
-             cr = c1 /\ r = map (fun x => x / mx) t1.
-Proof. exact normalize_spec. Qed.
-Print Assumptions C19_normalize_spec_partial.
+
+(* normalize_spec: a table with a non-zero entry is divided by its first entry mx of maximal magnitude, so every
+   value lies in [-1, 1] and the value 1 is reached; an empty or all-zero table raises ValueError *)
+Theorem C19_normalize_spec :
+  (forall t1 c1, (exists x, In x t1 /\ x <> 0) ->
+     exists mx, In mx t1 /\ mx <> 0 /\ (forall x, In x t1 -> Qc_abs x <= Qc_abs mx) /\
+       table_normalize t1 c1 = TOk (map (fun x => x / mx) t1) c1 /\
+       (forall y, In y (map (fun x => x / mx) t1) -> - (1) <= y /\ y <= 1) /\
+       In 1 (map (fun x => x / mx) t1)) /\
+  (forall t1 c1, (forall x, In x t1 -> x = 0) -> table_normalize t1 c1 = TRaise "ValueError").
+Proof. exact (conj normalize_full normalize_zero). Qed.
+Print Assumptions C19_normalize_spec.
+
+(* harmonize_spec: sample i = sum over (partial p, amplitude a) of a * table[(i mod ceil(len/(p+1))) * (p+1)];
+   an empty dictionary raises AttributeError (sum() of nothing is the int 0) *)
+Theorem C19_harmonize_spec :
+  (forall t1 c1 h, h <> [] -> table_harmonize t1 c1 h = TOk (map (harm_sample t1 h) (seq 0 (length t1))) c1) /\
+  (forall t1 c1, table_harmonize t1 c1 [] = TRaise "AttributeError").
+Proof. exact (conj harmonize_spec harmonize_empty). Qed.
+Print Assumptions C19_harmonize_spec.
+
 Example C19_table_example :
   tobs_eqb (run_tcall (TCall [qc 1 1; qc 3 1; qc (-2) 1] (1 / ((1 + 1) * pi_fl)) (Num (qc 1 2)) (Num 0) 4))
            (ORes [qc 1 1; qc 1 2; qc 1 1; qc 1 2] EMore)
-  && tobs_eqb (run_tcall (TGet [qc 1 1; qc 3 1; qc (-2) 1] (qc 7 2))) (OVal (qc 2 1)) = true.
+  && tobs_eqb (run_tcall (TGet [qc 1 1; qc 3 1; qc (-2) 1] (qc 7 2))) (OVal (qc 2 1))
+  && tobs_eqb (run_tcall (TNorm [qc 1 1; qc (-4) 1; qc 2 1] 1)) (OTbl [qc (-1) 4; qc 1 1; qc (-1) 2] 1)
+  && tobs_eqb (run_tcall (THarm [qc 1 1; qc 3 1; qc (-6) 1] 1 [(0%nat, qc 1 1); (1%nat, qc 1 2)]))
+              (OTbl [qc 3 2; qc 0 1; qc (-11) 2] 1) = true.
 Proof. vm_compute. reflexivity. Qed.
 Print Assumptions C19_table_example.
 
 (* ===================================================================== sinusoid *)
-(* sinusoid_phase: the argument handed to sin is (phase + n*freq) mod fl(2 pi); streams of freq / phase
-   are covered by the modulo_counter theorems (sinusoid_args is modulo_counter by definition).
-   sinusoid_partial: the bound |sin c_n - sin(phase + n*freq)| <= wraps * |2 pi - fl(2 pi)| over the reals
-   is NOT proved here; sin itself is outside the exact domain (the check observes its argument). *)
-Theorem C19_sinusoid_phase_partial : forall freq phase k,
-  sinusoid_args (Num freq) (Num phase) k
-  = take_res k (map (fun n => qmod (phase + nq n * freq) two_pi_fl) (seq 0 k), EStop).
-Proof. exact sinusoid_phase. Qed.
-Print Assumptions C19_sinusoid_phase_partial.
+(* sinusoid_phase: the arguments handed to sin are modulo_counter(phase, fl(2 pi), freq) by definition, hence
+   (C19_modulo_counter_is_spec) (phase_n + sum of the earlier freqs) mod fl(2 pi) for numbers or streams; for
+   numbers (phase + n*freq) mod fl(2 pi).  The real-number error bound is C19_sinusoid_real in PropR.v. *)
+Theorem C19_sinusoid_phase :
+  (forall freq phase k, sinusoid_args freq phase k = mc_spec phase (Num two_pi_fl) freq k) /\
+  (forall freq phase k, sinusoid_args (Num freq) (Num phase) k
+     = take_res k (map (fun n => qmod (phase + nq n * freq) two_pi_fl) (seq 0 k), EStop)).
+Proof. exact (conj (fun f p k => modulo_counter_is_spec p (Num two_pi_fl) f k) sinusoid_phase). Qed.
+Print Assumptions C19_sinusoid_phase.
 
 (* ===================================================================== karplus_strong *)
 (* karplus_is_linearised_comb: with delay D = fl(2 pi)/freq > 0, L = floor D, f = D - L, every output satisfies
@@ -305,31 +289,30 @@ Theorem C19_resample_is_lagrange : forall sig old new order zero k,
   resample sig old new order zero k = resample_spec sig old new order zero k.
 Proof. exact resample_is_lagrange. Qed.
 Print Assumptions C19_resample_is_lagrange.
-Theorem C19_resample_positions : forall sig zero order k pos s,
-  fst (rs_spec_loop k sig zero order pos (Num s)) =
-  map (fun m => rs_sample sig zero order (pos + nq m * s))
-      (seq 0 (length (fst (rs_spec_loop k sig zero order pos (Num s))))).
-Proof. exact rs_spec_positions. Qed.
-Print Assumptions C19_resample_positions.
-(* resample_integer_positions: at an integer position the interpolation returns the input sample *)
-Theorem C19_resample_integer_positions : forall sig zero order t,
-  rs_sample sig zero order (zq t) = sig_ext sig zero t.
-Proof. exact resample_integer_positions. Qed.
+
+(* positions m*old/new; resample_integer_positions: at an integer position the interpolation returns the
+   input sample itself (Lagrange interpolation reproduces its nodes) *)
+Theorem C19_resample_integer_positions :
+  (forall sig zero order k pos s,
+     fst (rs_spec_loop k sig zero order pos (Num s)) =
+     map (fun m => rs_sample sig zero order (pos + nq m * s))
+         (seq 0 (length (fst (rs_spec_loop k sig zero order pos (Num s)))))) /\
+  (forall sig zero order t, rs_sample sig zero order (zq t) = sig_ext sig zero t) /\
+  (forall data j, (j < length data)%nat -> lagrange_at data (nq j) = nth j data 0).
+Proof. exact (conj rs_spec_positions (conj resample_integer_positions lagrange_at_node)). Qed.
 Print Assumptions C19_resample_integer_positions.
-Theorem C19_lagrange_at_node : forall data j, (j < length data)%nat -> lagrange_at data (nq j) = nth j data 0.
-Proof. exact lagrange_at_node. Qed.
-Print Assumptions C19_lagrange_at_node.
+
 (* resample_ends_with_input: no output once the window would need a sample beyond the input; an input
    shorter than rint((order+1)/2) samples yields nothing *)
-Theorem C19_resample_ends_with_input : forall sig zero order pos step k,
-  rs_avail sig order pos = false -> rs_spec_loop (S k) sig zero order pos step = ([], EStop).
-Proof. exact resample_ends_with_input. Qed.
+Theorem C19_resample_ends_with_input :
+  (forall sig zero order pos step k,
+     rs_avail sig order pos = false -> rs_spec_loop (S k) sig zero order pos step = ([], EStop)) /\
+  (forall sig old new order zero k,
+     new <> 0 -> (length sig < Z.to_nat (rint (thr_of order)))%nat ->
+     resample sig old new order zero (S k) = ([], EStop)).
+Proof. exact (conj resample_ends_with_input resample_short_input). Qed.
 Print Assumptions C19_resample_ends_with_input.
-Theorem C19_resample_short_input : forall sig old new order zero k,
-  new <> 0 -> (length sig < Z.to_nat (rint (thr_of order)))%nat ->
-  resample sig old new order zero (S k) = ([], EStop).
-Proof. exact resample_short_input. Qed.
-Print Assumptions C19_resample_short_input.
+
 Example C19_resample_example :
   res_eqb (resample [qc 1 1; qc 2 1; qc 4 1; qc 8 1; qc 16 1] (Num 1) (qc 2 1) 3 0 40)
           ([qc 1 1; qc 23 16; qc 2 1; qc 45 16; qc 4 1; qc 45 8; qc 8 1], EStop)
